@@ -23,6 +23,8 @@ pub struct NodeDelete {
 pub struct EdgeDelete {
     pub edge: Edge,
     pub src_name: String,
+    //author of the source row: deleting the reference re-dates and re-signs that row
+    pub src_author: Vec<u8>,
     pub room_id: Option<Uid>,
     pub date: i64,
 }
@@ -71,6 +73,7 @@ impl DeletionQuery {
                         date,
                     })
                 } else {
+                    let mut edge_found = false;
                     for edge_deletion in &del.references {
                         let dest = parameters
                             .params
@@ -86,10 +89,16 @@ impl DeletionQuery {
                             deletion_query.edges.push(EdgeDelete {
                                 edge: *edge,
                                 src_name: del.name.clone(),
+                                src_author: node.verifying_key.clone(),
                                 room_id: node.room_id,
                                 date,
                             });
+                            edge_found = true;
                         }
+                    }
+                    //the source row is changed only when a reference is really deleted
+                    if !edge_found {
+                        continue;
                     }
                     let mut node = *node;
                     if let Some(room_id) = node.room_id {
